@@ -2,6 +2,7 @@
  * usage: mtx <scenario> <threads> <seed> <rounds>
  *   once   : T threads race on fresh once-triggers; the initialiser must run exactly once per trigger and its effects be visible
  *   atomic : T threads hammer one counter with mtAtomicIncr/Decr/CmpSwap; the final value must be exact
+ *   onexit : T threads register exit handlers concurrently (utilOnExit); every registered handler must run at exit
  *   rng    : T threads run generated, well-bracketed sequences of rngCreate / rngStepR / rngStepR2 / rngRekey / rngIsValid / rngClose
  * Every choice derives from <seed> (xorshift); yields are injected at operation boundaries from the same stream.
  * exit 0 ok, 3 invariant violated (line "INVARIANT: ..."), 66 ThreadSanitizer report (TSAN_OPTIONS=exitcode=66). */
@@ -15,6 +16,8 @@
 #include "bee2/core/mt.h"
 #include "bee2/core/rng.h"
 #include "bee2/core/err.h"
+#include "bee2/core/util.h"
+#include <unistd.h>
 
 static unsigned T; static uint64_t SEED; static unsigned ROUNDS;
 static pthread_barrier_t bar;
@@ -41,6 +44,30 @@ static void* once_thr(void* arg)
 		for (i = 0; i < 16; ++i) if (payload[r][i] != (unsigned char)(r * 7 + 1)) { INV(0, "round %u: initialiser effects not visible after mtCallOnce returned", r); break; }
 		pthread_barrier_wait(&bar);
 		if ((uintptr_t)arg == 0) { INV(inits[r] == 1, "round %u: initialiser ran %d times", r, inits[r]); cur_round = r + 1; }
+	}
+	return 0;
+}
+
+/* ---------------- onexit */
+static size_t exit_runs, exit_expected;
+static void exit_fn(void) { ++exit_runs; }		/* handlers run one after another at exit */
+static void exit_check(void)
+{
+	if (exit_runs != exit_expected)
+	{
+		fprintf(stderr, "INVARIANT: %zu of %zu registered exit handlers ran\n", exit_runs, exit_expected);
+		fflush(stderr);
+		_exit(3);
+	}
+}
+static void* onexit_thr(void* arg)
+{
+	uint64_t s = SEED * 131 + (uintptr_t)arg * 9176 + 7; unsigned i;
+	pthread_barrier_wait(&bar);
+	for (i = 0; i < ROUNDS * 8; ++i)
+	{
+		INV(utilOnExit(exit_fn), "utilOnExit returned FALSE");
+		if ((xs(&s) & 3) == 0) maybe_yield(&s);
 	}
 	return 0;
 }
@@ -138,6 +165,7 @@ int main(int argc, char** argv)
 	if (!strcmp(argv[1], "once")) fn = once_thr;
 	else if (!strcmp(argv[1], "atomic")) fn = atomic_thr;
 	else if (!strcmp(argv[1], "rng")) { fn = rng_thr; outs = malloc((size_t)MAXOUT * 32); }
+	else if (!strcmp(argv[1], "onexit")) { fn = onexit_thr; exit_expected = (size_t)T * ROUNDS * 8; atexit(exit_check); /* registered first: runs after the library's own exit handler */ }
 	else if (!strcmp(argv[1], "churn")) { fn = churn_thr; outs = malloc((size_t)MAXOUT * 32); }
 	else return 2;
 	for (i = 0; i < T; ++i) pthread_create(&th[i], 0, fn, (void*)(uintptr_t)i);
